@@ -22,7 +22,7 @@ ASSUMPTIONS = ["rename(2) replaces the destination atomically", "`expect()` pani
 MUTATORS = re.compile(
     r"std::fs::(rename|write|copy|remove_file|remove_dir|remove_dir_all|create_dir|create_dir_all|set_permissions|hard_link|soft_link)"
     r"|std::fs::File::(create|create_new|set_len|set_permissions)|std::fs::OpenOptions::open|std::os::unix::fs::symlink"
-    r"|nix::unistd::(unlink|truncate|ftruncate|symlinkat|linkat|mkdir)|helpers::unlink|std::io::copy::copy"
+    r"|nix::unistd::(unlink|truncate|ftruncate|symlinkat|linkat|mkdir)|helpers::unlink(_output)?|std::io::copy::copy"
     r"|tempfile::(file::)?NamedTempFile(<.*>)?::persist|tempfile::Builder::tempfile_in|tempfile::Builder::tempfile|tempfile::(file::)?tempfile")
 
 
@@ -63,8 +63,8 @@ def run(ctx):
         if b is None:
             continue
         ba = BA.of(b)
-        if k == "helpers::unlink":
-            continue  # the wrapper itself; its call sites are the mutators
+        if k in ("helpers::unlink", "helpers::unlink_output"):
+            continue  # the wrappers themselves; their call sites are the mutators
         muts = [i for i in ba.all_calls() if is_mutator_call(b.blocks[i]["term"])]
         if not muts:
             continue
@@ -77,6 +77,7 @@ def run(ctx):
                 target_mut.append((b, i, common.short(callee_paths(t)[0]), hit))
     ctx.floor("R4.1", "parent-side filesystem mutator call sites examined", n_mut, 8)
     allowed = {("std::fs::rename", (1,)), ("helpers::unlink", (0,))}
+    target_mut = [(b, i, "helpers::unlink" if name == "helpers::unlink_output" else name, hit) for (b, i, name, hit) in target_mut]
     seen = {}
     for b, i, name, hit in target_mut:
         key = (name, tuple(hit))
@@ -169,7 +170,7 @@ def run(ctx):
     if ctx.ob("R4.3", "%s|final-status-test" % R.key, len(final) == 1, where=R.span, detail="%d `rv != EXIT_SUCCESS` tests dominate set_failed" % len(final)):
         sw, ne_t = final[0]
         common.mpt(ctx, "R4.3", "%s|final-test-on-every-path" % R.key, R, [0], rba.returns(), [sw], "every path passes the final status test", "a path returns without the final status test")
-        unl_tmp = [i for i in rba.calls(r"helpers::unlink") if rba.edge_dominates((sw, ne_t), i)]
+        unl_tmp = [i for i in rba.calls_deep(r"helpers::unlink", prog) if rba.edge_dominates((sw, ne_t), i)]
         saves = rba.calls(r"state::File::save")
         common.mpt(ctx, "R4.3", "%s|failure=>tmp-removed" % R.key, R, [ne_t], saves, unl_tmp, "on failure the temp output is removed", "a failed build leaves its temp output behind")
         if unl_tmp:
